@@ -19,8 +19,6 @@ import (
 	"verif/ev"
 	"verif/idl"
 	"verif/stubgen"
-
-	"math/rand"
 )
 
 type progSpec struct {
@@ -91,7 +89,7 @@ var pkgErr = regexp.MustCompile(`(?m)^(?:vet: )?gen/(p\d+)/`)
 
 func main() {
 	run := ev.New("C02", ev.ArgTier(), "exploration")
-	run.Rule("random valid multi-file IDL programs (core pool of verif/idl; all type constructors, modifiers, defaults, typedef chains, includes, enums, nested containers) are compiled with the compiler under test; for every struct / union / exception / <method>_args / <method>_result type x {binary, compact, json} x N model-generated values: emitted Write -> independent schema-less decode == encoding the IDL declares; reference-written encoding (shuffled fields, unknown fields) -> emitted Read == value; Read(Write(v)) == v; missing required field rejected; union with 0 or 2 members never written. distinct = distinct (feature vector of the program) + distinct (type kind, protocol) pairs exercised")
+	run.Rule("random valid multi-file IDL programs (core pool of verif/idl; all type constructors, modifiers, defaults, typedef chains, includes, enums, nested containers) are compiled with the compiler under test; for every struct / union / exception / <method>_args / <method>_result type x {binary, compact, json} x N model-generated values: emitted Write -> independent schema-less decode == encoding the IDL declares; reference-written encoding (shuffled fields, unknown fields) -> emitted Read == value; Read(Write(v)) == v; missing required field rejected; union with 0 or 2 members never written. plus a directed sub-pool: the same pools with a typedef of an enum declared in an included file used from another file as the type of fields / arguments / constants / container elements and keys whose defaults name enum values. distinct = distinct (feature vector of the program) + distinct (type kind, protocol) pairs exercised")
 	run.Assume("Apache Thrift Go library (protocols) is correct: it is a dependency, not the subject")
 	run.Assume("verif/idl model + verif/tvalue schema-less codec + verif/gocodec reflection mapping (fields by declaration order, emitted IsSet<F> defines 'set' of optional fields)")
 	nProgs, perBatch, values := 16, 8, 12
@@ -118,11 +116,31 @@ func main() {
 		}
 		batches = append(batches, specs[i:j])
 	}
+	// directed sub-pool (own PRNG stream, own batches: the programs above do not
+	// move): the same pools plus a typedef of an enum declared in an INCLUDED
+	// file, used from another file as the declared type of fields / arguments /
+	// constants / container elements and keys whose default names an enum value
+	// (verif/idl/incenumalias.go).  Two consecutive batches = both generator option sets.
+	nAlias := 6
+	if run.Thorough() {
+		nAlias = 24
+	}
+	arng := run.Rand("c02-included-enum-alias")
+	var aspecs []progSpec
+	for i := 0; i < nAlias; i++ {
+		cfg := []string{"core", "core+shadow", "core+argmods"}[i%3] + "+" + idl.IncludedEnumAliasFlag
+		aspecs = append(aspecs, progSpec{Sub: fmt.Sprintf("p%d", nProgs+i), Seed: arng.Int63(), Cfg: cfg})
+	}
+	aliasFrom := len(batches) // index of the first directed batch
+	batches = append(batches, aspecs[:nAlias/2], aspecs[nAlias/2:])
+	nProgs += nAlias
 	var wg sync.WaitGroup
 	sem := make(chan struct{}, 6)
 	var mu sync.Mutex
 	rejected, uncompilable := 0, 0
 	var firstProblems []string
+	aliasBad := 0
+	var aliasProblems []string
 	totals := map[string]int{}
 	for bi, bs := range batches {
 		wg.Add(1)
@@ -133,11 +151,18 @@ func main() {
 			res, rej, unc, err := runBatch(bi, bs, values, run.Seed)
 			mu.Lock()
 			defer mu.Unlock()
-			rejected += rej
-			uncompilable += unc
 			probMu.Lock()
-			if len(firstProblems) < 4 {
-				firstProblems = append(firstProblems, batchProblems[bi]...)
+			if bi >= aliasFrom {
+				aliasBad += rej + unc
+				if len(aliasProblems) < 6 {
+					aliasProblems = append(aliasProblems, batchProblems[bi]...)
+				}
+			} else {
+				rejected += rej
+				uncompilable += unc
+				if len(firstProblems) < 4 {
+					firstProblems = append(firstProblems, batchProblems[bi]...)
+				}
 			}
 			probMu.Unlock()
 			if err != nil {
@@ -180,6 +205,7 @@ func main() {
 		}
 	}
 	run.Set("programs", nProgs)
+	run.Set("programs_with_included_enum_alias_defaults", nAlias)
 	run.Set("go_generator_option_sets", []string{"(none)", "slim"})
 	run.Distinct("generator options: none")
 	run.Distinct("generator options: slim")
@@ -191,8 +217,14 @@ func main() {
 		// that could encode anything the IDL declares
 		run.Violation("C02:core-program-not-compilable", fmt.Sprintf("%d core programs were rejected by the compiler and the emitted Go of %d does not build: %s", rejected, uncompilable, strings.Join(firstProblems, " | ")), map[string]interface{}{"problems": firstProblems})
 	}
-	if rejected+uncompilable > nProgs/2 {
-		run.Inconclusive(fmt.Sprintf("%d of %d core programs could not be compiled (see C11)", rejected+uncompilable, nProgs))
+	run.Set("included_enum_alias_programs_not_compilable", aliasBad)
+	if aliasBad > 0 {
+		// same reasoning for the directed sub-pool; the signature names the construct
+		// class every program of that sub-pool carries (on top of a core program)
+		run.Violation("C02:program-not-compilable:typedef_of_included_enum_with_enum_value_defaults", fmt.Sprintf("%d of %d valid programs that use a typedef of an included file's enum as the declared type of defaulted fields / arguments / constants / container elements were rejected by the compiler or their emitted Go does not build (replay: idl.GenerateNamed(seed, cfg)): %s", aliasBad, nAlias, strings.Join(aliasProblems, " | ")), map[string]interface{}{"problems": aliasProblems})
+	}
+	if rejected+uncompilable+aliasBad > nProgs/2 {
+		run.Inconclusive(fmt.Sprintf("%d of %d programs could not be compiled (see C11)", rejected+uncompilable+aliasBad, nProgs))
 	}
 	os.Exit(run.Finish())
 }
@@ -214,7 +246,7 @@ func runBatch(bi int, bs []progSpec, values int, seed int64) ([]*progResult, int
 	rejected, uncompilable := 0, 0
 	var live []progSpec
 	for _, ps := range bs {
-		prog := idl.Generate(rand.New(rand.NewSource(ps.Seed)), cfgByName(ps.Cfg))
+		prog := idl.GenerateNamed(ps.Seed, ps.Cfg)
 		src := filepath.Join(h.Dir, "src", ps.Sub)
 		if _, err := idl.WriteProgram(prog, src, idl.DefaultStyle()); err != nil {
 			return nil, 0, 0, err
@@ -269,6 +301,9 @@ func runBatch(bi int, bs []progSpec, values int, seed int64) ([]*progResult, int
 		for _, ps := range live {
 			if bad[ps.Sub] {
 				uncompilable++
+				probMu.Lock()
+				batchProblems[bi] = append(batchProblems[bi], fmt.Sprintf("[%s = seed %d, %s]", ps.Sub, ps.Seed, ps.Cfg))
+				probMu.Unlock()
 				os.RemoveAll(filepath.Join(h.Dir, "gen", ps.Sub))
 			} else {
 				keep = append(keep, ps)
